@@ -13,9 +13,9 @@ TEXT = {
             "§7 C02"),
     "C03": ("Lean theorems C03_decode_encode / C03_roundtrip_graph and, at the level of strings, C03p_roundtrip_strings (every SMILES the strict encoder accepts; the parser is PROVED to establish the graph hypotheses: C03p_parser_pwf, C03p_parser_forest, C03p_kekulized_ready; remaining hypotheses: spans < 16^3, nesting depth < recursion budget, length <= 10^4300): for every parsed, kekulized graph that obeys the table, encoding then decoding yields the same atoms in the same order and the same bonded pairs with the same orders (SameMolecule), with each atom's neighbour order = ring bonds in formation order then chain bonds (C03_neighbour_order) - a theorem about graphs, i.e. about every spelling at once; staged versions C03_chain, C03_tree; C03s_roundtrip_parsed / C03s_bonds_iff: the same on the OUTPUT STRING (the library's parser reads decoder(encoder(s)) back with the same atoms and exactly the same bonds); C05e_aromatic_end_to_end for aromatic input. Tie: correspondence of parser, kekulization (recorded tape), encoder, decoder on datasets, re-spellings (incl. ring digits behind branches), random trees, long spans; the independent reader judges the real round trip.",
             "§7 C03"),
-    "C04": ("Lean theorems C04_parity_spec / C04_parity_eq (the encoder's chirality flip is exactly the parity of the permutation between the written neighbour order and the decoder's order, for every graph), C04_inversions_parity (inversion count = transposition parity), C04_ring_marks / C04_chain_marks (every '/' '\\' mark is carried by the emitted symbol and read back on the right end; decide over the regenerated ring table). C04_handedness_preserved / C04_marks_preserved (Props/C04h.lean, the property in semantic form: handedness = tag xor parity of the written neighbour order, equal on the two parsed graphs; every bond found again at the position decoderOrder dictates with the same mark). C04_end_to_end (string level): after encoder and decoder every atom's written neighbour order is the decoder order of its input row and its tag is flipped exactly when that permutation is odd.",
+    "C04": ("Lean theorems C04_parity_spec / C04_parity_eq (the encoder's chirality flip is exactly the parity of the permutation between the written neighbour order and the decoder's order, for every graph), C04_inversions_parity (inversion count = transposition parity), C04_ring_marks / C04_chain_marks (every '/' '\\' mark is carried by the emitted symbol and read back on the right end; decide over the regenerated ring table). C04_handedness_preserved / C04_marks_preserved (Props/C04h.lean, the property in semantic form: handedness = tag xor parity of the written neighbour order, equal on the two parsed graphs; every bond found again at the position decoderOrder dictates with the same mark; C04_marks_preserved_all / C04_every_mark_found_again, Props/C04k.lean: without any guard, for aromatic input too, because kekulization provably touches only aromatic bonds). C04_end_to_end (string level): after encoder and decoder every atom's written neighbour order is the decoder order of its input row and its tag is flipped exactly when that permutation is odd.",
             "§7 C04"),
-    "C05": ("Lean theorems: C05_greedy_valid/_total, C05_flip_valid, C05_bfs_path_alternating, C05_augment_sound_partial (sound whenever every augmenting path found is simple), C05_bipartite_sound and C05_bipartite_complete / C05_bipartite_decides (on bipartite graphs - all rings even - the routine returns a perfect matching exactly when one exists, for every legal tape; via a constructive Berge walk and completeness of the BFS), C05_kekulize_complete_bipartite, C05e_aromatic_end_to_end / C05e_rejects_without_kekule_structure / C05e_accepts_iff_kekule_structure_bipartite (the main clause end to end: decoder(encoder(s)) has the sigma skeleton, H and charges of s, every aromatic bond as 1 or 2, exactly one double bond at each atom that needs one and none at the others; EncoderError when no assignment exists, on bipartite systems), C05_kekulize_sound (exact result of kekulize given a perfect matching: sigma skeleton unchanged, one double bond per kept atom), C05_prune_standard_kinds (28 atom kinds, decide); unconditional soundness is FALSE (C05_no_blossom_witness / C05_soundness_false, finding F9). Tie: find_perfect_matching vs the model on EVERY subcubic graph <= 6/7 vertices + random graphs to 30 vertices with the recorded tape, brute force; aromatic systems in many atom orders judged per spelling by the independent reader. Completeness and order independence are bounded search by design.",
+    "C05": ("Lean theorems: C05_greedy_valid/_total, C05_flip_valid, C05_bfs_path_alternating, C05_augment_sound_partial (sound whenever every augmenting path found is simple), C05_bipartite_sound and C05_bipartite_complete / C05_bipartite_decides (on bipartite graphs - all rings even - the routine returns a perfect matching exactly when one exists, for every legal tape; via a constructive Berge walk and completeness of the BFS), C05_kekulize_complete_bipartite, C05e_aromatic_end_to_end / C05e_rejects_without_kekule_structure / C05e_accepts_iff_kekule_structure_bipartite (the main clause end to end: decoder(encoder(s)) has the sigma skeleton, H and charges of s, every aromatic bond as 1 or 2, exactly one double bond at each atom that needs one and none at the others; EncoderError when no assignment exists, on bipartite systems), C05_kekulize_sound (exact result of kekulize given a perfect matching: sigma skeleton unchanged, one double bond per kept atom), C05_prune_standard_kinds (28 atom kinds, decide); unconditional soundness is FALSE (C05_no_blossom_witness / C05_soundness_false, finding F9), but UNCONDITIONALLY the result pairs only adjacent vertices (C05_matching_edges), so the sigma skeleton, hydrogens, charges and non-aromatic bonds are unchanged and every aromatic bond becomes single or double on every accepted input (C05_sigma_skeleton_unconditional, C05_sigma_skeleton_end_to_end; Props/C05k.lean). Tie: find_perfect_matching vs the model on EVERY subcubic graph <= 6/7 vertices + random graphs to 30 vertices with the recorded tape, brute force; aromatic systems in many atom orders judged per spelling by the independent reader. Completeness and order independence are bounded search by design.",
             "§7 C05"),
     "C06": ("Lean theorems C06_strict_iff / C06_strict_raises_iff (strict rejection <=> some atom's bond sum + explicit H exceeds its capacity, for every parse/kekulize result), C06_nonstrict_table_free (the non-strict result does not depend on the table), C06_strict_success_same_as_nonstrict, C06_capacity_key. Tie: correspondence of strict / non-strict encoding under changing tables on at/below/above-capacity molecules, sibling pairs differing only in explicit H, two-fragment combinations; independent bond count on the real code.",
             "§7 C06"),
@@ -39,7 +39,7 @@ TEXT = {
             "§7 C15"),
     "C16": ("Lean theorems C16_roundtrip (all n, unbounded), C16_horner, C16_shortest, C16_unknown_zero, C16_missing_zero, C16_three_symbols, C16_alphabet_documented (generated constant = table parsed from derivation.rst) + GenEq, GenEq2, GenEq4 (get_index_from_selfies, get_selfies_from_index, _read_index_from_selfies re-translated from the Python source on every run and proved equal to the model for all arguments, incl. termination of the digit loop). Tied exhaustively: every n < 16^3 and every symbol triple on the real functions vs the model.",
             "§7 C16"),
-    "C17": ("Lean theorems C17_decoder_same_string / C17_encoder_same_string (attribution never feeds back: erasure commutes with every phase), C17_output_index (every entry's token ends at the reported index, all fragments), C17_input_index(_compat) (every contributing token is the symbol at the reported position), C17_atom_attribution_exact + C17_made_once (Props/C17x.lean: each atom carries EXACTLY the enclosing branch symbols, outermost first, then the atom symbol that made it, and every atom-making symbol makes exactly one atom; 'encloses' is defined on an attribution-free walk of the derivation whose spans are laminar, C17_spans_laminar, and which is Spec.derive with the molecule erased, C17_walk_is_spec_derive), C17_stack_discipline, C17_every_atom_has_entry, C17_encoder_atoms. Tie: full attribution lists (decoder, encoder) vs the model and truthfulness oracles on the real code.",
+    "C17": ("Lean theorems C17_decoder_same_string / C17_encoder_same_string (attribution never feeds back: erasure commutes with every phase), C17_output_index (every entry's token ends at the reported index, all fragments), C17_input_index(_compat) (every contributing token is the symbol at the reported position), C17_atom_attribution_exact + C17_made_once (Props/C17x.lean: each atom carries EXACTLY the enclosing branch symbols, outermost first, then the atom symbol that made it, and every atom-making symbol makes exactly one atom; 'encloses' is defined on an attribution-free walk of the derivation whose spans are laminar, C17_spans_laminar, and which is Spec.derive with the molecule erased, C17_walk_is_spec_derive), C17_stack_discipline, C17_every_atom_has_entry, C17_encoder_atoms. Tie: full attribution lists (decoder, encoder) vs the model, truthfulness oracles on the real code, and the positions every output atom is attributed to vs the enclosing-branch lists of the attribution-free walk (driver op encl).",
             "§7 C17"),
     "C18": ("Lean theorems C18_conservative, C18_commutes (string level, all strings, with attribution), C18_idempotent, C18_table_documented, C18_legacy_*_rejected_without_flag, C18_legacy_atoms. Tied by symbol-level correspondence of modernize_symbol on every legacy family and decoder correspondence with/without the flag.",
             "§7 C18"),
